@@ -579,12 +579,73 @@ def run_illformed(acc):
 # ----------------------------------------------------------------------------- dispatch
 
 
+def run_system_rules(acc):
+    """a @system block means: its listed units become base units, a rule `new : old` putting `new` in the place of root
+    unit `old`. Every rule form — `new` alone and `new : old` with new = 5 * old**e * other**f, e in {1, 2, 3, -1, -2},
+    f in {0, 1, -1, 2} — loaded from lines and from a file (cold and warm disk cache), float and Fraction: base-unit answers
+    use only the system's base units and preserve the physical value (oracle shared with C14)"""
+    from checks.c14_systems_groups import check_base
+    import tempfile
+    pint = core.boot()
+    for e, f, form in itertools.product((1, 2, 3, -1, -2), (0, 1, -1, 2), ("new : old", "new")):
+        if form == "new" and f != 0:
+            continue  # without a rule the unit to replace is inferred, which needs a single root unit
+        expr = f"5 * ua ** {e}" + (f" * ub ** {f}" if f else "")
+        lines = ["ua = [A]", "ub = [B]", "uc = [C]", f"nu = {expr}", "other = 3 * ua * uc", "@system S", "    nu : ua" if form == "new : old" else "    nu", "@end"]
+        try:
+            M = defs.read(lines)
+        except defs.DefError:
+            continue
+        exact = {}
+        # (thirds are not binary fractions: with e = 3 a float registry accumulates exponents like -1.6666666666666665 and
+        # then refuses the conversion — the recorded float-exponent design limit, not this clause's subject)
+        for nt in (("Fraction", "float") if e != 3 else ("Fraction",)):
+            for path_kind in ("lines", "file", "file-warm-cache"):
+                scratch = tempfile.mkdtemp(prefix="c10sys_", dir=os.environ.get("VERIF_SCRATCH") or None)
+                try:
+                    kw = {} if nt == "float" else {"non_int_type": NIT[nt]}
+                    if path_kind == "lines":
+                        ureg = pint.UnitRegistry(list(lines), cache_folder=None, **kw)
+                    else:
+                        pth = os.path.join(scratch, "defs.txt")
+                        with open(pth, "w", encoding="utf-8") as fh:
+                            fh.write("\n".join(lines) + "\n")
+                        cf = os.path.join(scratch, "cache") if path_kind == "file-warm-cache" else None
+                        ureg = pint.UnitRegistry(pth, cache_folder=cf, **kw)
+                        if cf:
+                            ureg = pint.UnitRegistry(pth, cache_folder=cf, **kw)
+                    for units in ({"nu": 1}, {"ua": 1}, {"ub": 1}, {"other": 1}, {"ua": 1, "ub": -1}, {"nu": 2, "uc": -1}, {"other": 1, "nu": -1}):
+                        acc.nt(("system-rule", e, f, form, nt, path_kind, tuple(units.items())))
+                        extra = {"definition": f"nu = {expr}", "rule": form, "path": path_kind, "nt": nt}
+                        if nt == "Fraction":
+                            n0 = len(acc.violations)
+                            r = check_base(acc, M, ureg, units, "S", "system-rule")
+                            for v in acc.violations[n0:]:
+                                v["case"].update(extra)
+                            exact[(path_kind, tuple(units.items()))] = r
+                        else:
+                            # the float registry gives the same answer up to rounding
+                            r = exact.get((path_kind, tuple(units.items())))
+                            acc.ev()
+                            o = call(lambda: ureg.get_base_units(ureg.UnitsContainer(units), system="S"))
+                            if r is None:
+                                continue
+                            ok = o[0] == "ok" and {k: Fraction(v).limit_denominator(1000) for k, v in dict(o[1][1]._units).items()} == r[1] and abs(float(o[1][0]) - float(r[0])) <= 1e-12 * abs(float(r[0]))
+                            if not ok:
+                                acc.violation(["system-rule", "get_base_units", "float-registry-differs-from-the-exact-registry", "S"], dict(extra, units={k: str(v) for k, v in units.items()}), [str(r[0]), {k: str(v) for k, v in r[1].items()}], repr(o)[:200])
+                finally:
+                    shutil.rmtree(scratch, ignore_errors=True)
+    acc.outcome("system-rules")
+    acc.sample({"clause": "system-rule", "definition": "nu = 5 * ua ** 2 * ub ** -1", "rule": "nu : ua", "probe": "get_base_units(ua, system='S')"})
+
+
 def shards(tier, seed):
     out = [("bundled", nt) for nt in ("float", "Fraction", "Decimal")]
     for mi in range(3):
         for nt in ("float", "Fraction", "Decimal"):
             out.append(("generated", mi, nt))
     out.append(("illformed",))
+    out.append(("system-rules",))
     return out
 
 
@@ -596,6 +657,8 @@ def run_shard(acc, shard, tier, seed):
         run_generated(acc, shard[1], shard[2], tier)
     elif k == "illformed":
         run_illformed(acc)
+    elif k == "system-rules":
+        run_system_rules(acc)
     else:
         raise core.HarnessError(str(shard))
 
@@ -605,6 +668,8 @@ def replay(rec):
     acc = core.Acc(PROPERTY)
     if site[0] == "bundled":
         run_bundled(acc, case.get("nt", "float"))
+    elif site[0] == "system-rule":
+        run_system_rules(acc)
     elif site[0] == "generated":
         run_generated(acc, case.get("model", 0), case.get("nt", "float"), rec.get("tier", "quick"))
     else:
